@@ -8,18 +8,20 @@ TIER="${2:-quick}"
 shift; shift || true
 id=$(echo "$ID" | tr 'A-Z' 'a-z')
 export GOFLAGS=-mod=mod GOPROXY=off GOSUMDB=off GOTOOLCHAIN=local
-export VERIF_DIR=/verif
-cd /verif/harness || exit 2
-mkdir -p /verif/bin /verif/evidence
+# the directory this script lives in (normally /verif; a snapshot of it when started through `vp run`)
+ROOT="$(cd "$(dirname "${BASH_SOURCE[0]}")" && pwd)"
+export VERIF_DIR="$ROOT"
+cd "$ROOT/harness" || exit 2
+mkdir -p "$ROOT/bin" "$ROOT/evidence"
 # VERIF_REPO (default /repo) lets the same check run against a scratch worktree (used only when trying
 # seeded changes side by side; registered commands always run against /repo). Binaries and evidence of such
 # runs go to a private directory so that they never mix with runs against /repo.
 REPO="${VERIF_REPO:-/repo}"
 MODFLAG=""
-BIN=/verif/bin
+BIN="$ROOT/bin"
 if [ "$REPO" != "/repo" ]; then
   tag=$(echo "$REPO" | tr -c 'A-Za-z0-9' '_')
-  BIN=/verif/bin/alt/$tag; mkdir -p "$BIN"
+  BIN="$ROOT/bin/alt/$tag"; mkdir -p "$BIN"
   sed "s#=> /repo#=> $REPO#" go.mod > "$BIN/go.mod"; cp "$REPO/go.sum" "$BIN/go.sum"
   MODFLAG="-modfile=$BIN/go.mod"
   export VERIF_EVIDENCE_DIR="$BIN/evidence" VERIF_REPLAY_DIR="$BIN/replay"
